@@ -192,6 +192,24 @@ def run(ctx):
     small = [(c, d) for c, d in produced if len(c[1]) <= 60]
     idec, mdec = ctx.correspond("VmStack.deserialize", [d for _, d in small], py_dec,
                                 lambda d: "vm_dec " + cells.dag_line(d), timeout_s=60)
+    # foreign encodings: slice values that denote a window of their cell (st_bits > 0, end_bits < length, reference window),
+    # valid and inverted - model (C17_slice_window) against the implementation on the same cells
+    foreign = []
+    for _ in range(ctx.n(80, 800)):
+        nb, nk = rng.choice([0, 7, 16, 100, 1023]), rng.choice([0, 1, 2, 4])
+        d = [(-1, format(i, "08b"), []) for i in range(nk)]
+        d.append((-1, cells.rand_bits(rng, nb), list(range(nk))))
+        d.append((-1, "", []))
+        sb, sr = rng.randrange(0, nb + 1), rng.randrange(0, nk + 1)
+        eb, er = rng.randrange(sb, nb + 1), rng.randrange(sr, nk + 1)
+        if rng.random() < 0.15:
+            sb, eb = eb + 1, sb            # inverted: must be refused
+        elif rng.random() < 0.1:
+            sr, er = er + 1, sr
+        d.append((-1, format(1, "024b") + "00000100" + format(sb, "010b") + format(eb, "010b") + format(sr & 7, "03b") + format(er & 7, "03b"),
+                  [nk + 1, nk]))
+        foreign.append(d)
+    ctx.correspond("VmStack.deserialize-foreign-slices", foreign, py_dec, lambda d: "vm_dec " + cells.dag_line(d), timeout_s=60)
     # oracle: round trip, purity
     for (c, d), a in zip(small, idec):
         dag, vals = c
